@@ -226,6 +226,9 @@ pub fn run_conn(c: &Cfg, s: &SrvCfg) -> Run {
         let mut client = con.connect(a).map_err(|e| format!("connect:{:?}", e))?;
         for i in 0..nreads { client.read(|_| {}).map_err(|e| format!("read{}:{:?}", i, e))?; }
         for (i, op) in inputs.iter().enumerate() { client.write(parse_event(op).ok_or("bad event")?).map_err(|e| format!("write{}:{:?}", i, e))?; }
+        // an early shutdown leaves server messages unread: give the server time to finish writing them, so that it
+        // is still listening when the ultimatum arrives (a write to a closed socket would end its loop)
+        if EARLY_READS.load(std::sync::atomic::Ordering::Relaxed) >= 0 { std::thread::sleep(Duration::from_millis(200)); }
         client.shutdown().map_err(|e| format!("shutdown:{:?}", e))?;
         drop(client);
         Ok(())
